@@ -52,6 +52,16 @@ func arInput(b []byte, via string) io.ReaderAt {
 		big := append(append(append([]byte{}, prefix...), b...), suffix...)
 		return io.NewSectionReader(bytes.NewReader(big), int64(len(prefix)), int64(len(b)))
 	}
+	if via == "consumed" || via == "half-consumed" {
+		// a reader that has been Read from already (hashed, sniffed): ReadAt does not care where Read left off
+		r := bytes.NewReader(b)
+		n := int64(len(b))
+		if via == "half-consumed" {
+			n = n / 2
+		}
+		io.CopyN(io.Discard, r, n)
+		return r
+	}
 	return bytes.NewReader(b)
 }
 
